@@ -5,7 +5,7 @@
 From Coq Require Import String Ascii List ZArith Bool Lia Permutation.
 Require Import Blots.Num Blots.gen.Builtins Blots.Ast Blots.Value Blots.Outcome Blots.Binop
                Blots.Env Blots.Eval Blots.BuiltinsHof Blots.Program Blots.EvalInst Blots.EvalFull
-               Blots.BuiltinsList Blots.BuiltinsAgg
+               Blots.BuiltinsList Blots.BuiltinsAgg Blots.BuiltinsText
                Blots.proofs.ValueInd Blots.proofs.StoreMono Blots.proofs.Closed Blots.proofs.ClosedOps
                Blots.proofs.SortLaws Blots.proofs.FullClosed Blots.proofs.CallSite.
 Import ListNotations.
@@ -261,7 +261,8 @@ Section ByAgree.
                  | apply bi_sum_closed | apply bi_prod_closed | apply bi_median_closed
                  | apply bi_percentile_closed | apply bi_len_closed | apply bi_dot_closed
                  | apply bi_split_closed | apply bi_replace_closed | apply bi_includes_closed
-                 | apply bi_keys_closed
+                 | apply bi_keys_closed | apply bi_convert_closed | apply bi_round_closed
+                 | apply bi_to_number_closed | apply bi_to_string_closed | apply bi_join_full_closed
                  | intros v;
                    first [ apply bi_head_closed | apply bi_tail_closed | apply bi_slice_closed
                          | apply bi_concat_closed | apply bi_unique_closed | apply bi_sort_closed
